@@ -467,7 +467,7 @@ def main():
         if key in reported or len(reported) >= 4:
             continue
         reported.add(key)
-        if c["gen_ok"] and c["label"] in ("random", "corpus", "replay") and len(reported) <= 2:
+        if c["gen_ok"] and c["label"] in ("random", "corpus", "replay", "coverage") and len(reported) <= 2:
             c = dict(c, project=shrink_failing(c))
         claim = "prop_C09: generation exit 0 => file parses, is gofmt-clean, declares the configured package, its " \
                 "import aliases are valid, unique and used, and it compiles; exit != 0 => no file written"
